@@ -460,8 +460,31 @@ func (e *Explorer) Explore() {
 				r2 := e.run(ch, true)
 				e.Stats = st
 				st.SelfCheckRuns++
-				if r2.obs != res.obs || len(r2.trace) != len(res.trace) || len(r2.viol) != len(res.viol) {
-					panic(fmt.Sprintf("engine: self-check failed: execution %v not reproducible\n--- first\n%s\n--- second\n%s", ch, res.obs, r2.obs))
+				if len(r2.trace) != len(res.trace) {
+					panic(fmt.Sprintf("engine: self-check failed: execution %v not reproducible (different choice points)\n--- first\n%s\n--- second\n%s", ch, res.obs, r2.obs))
+				}
+				if r2.obs != res.obs || len(r2.viol) != len(res.viol) {
+					// The same choices gave a different observation the second time: the code under test carries
+					// state from call to call (all harness nondeterminism is owned). The oracle still judges every
+					// execution, including this re-run; the determinism self-check is switched off for the rest of
+					// the phase and the run is marked non-exhaustive.
+					st.Counters["selfcheck_mismatch"]++
+					st.Exhaustive = false
+					st.CapNotes = append(st.CapNotes, fmt.Sprintf("execution %v gave a different observation when repeated in the same process: executions are not independent; continuing without the self-check", ch))
+					e.selfCheck = 0
+					have := map[string]bool{}
+					for _, v := range res.viol {
+						have[v.Sig] = true
+					}
+					for _, v := range r2.viol {
+						if !have[v.Sig] {
+							if v.Detail == nil {
+								v.Detail = map[string]any{}
+							}
+							v.Detail["found_on"] = "immediate repetition of the same execution in the same process"
+							res.viol = append(res.viol, v)
+						}
+					}
 				}
 			}
 		}
